@@ -571,27 +571,28 @@ var clauseKeywords = map[string]bool{"props": true, "requires": true, "ensures":
 	"freshresult": true, "nonnilresult": true, "uses": true, "spawn": true}
 
 // extractSpecLines pulls the //@ lines out of a Go source text.
-func extractSpecLines(src string) []struct {
-	Text string
-	Line int
-} {
-	var out []struct {
-		Text string
-		Line int
-	}
+type specLine struct {
+	Text   string
+	Line   int
+	Indent int
+}
+
+func extractSpecLines(src string) []specLine {
+	var out []specLine
 	for i, l := range strings.Split(src, "\n") {
 		t := strings.TrimSpace(stripTrailingComment(l))
-		if strings.HasPrefix(t, "//@") {
-			out = append(out, struct {
-				Text string
-				Line int
-			}{strings.TrimSpace(t[3:]), i + 1})
-		} else if strings.HasPrefix(t, "// @") { // gofmt rewrites //@ in doc comments
-			out = append(out, struct {
-				Text string
-				Line int
-			}{strings.TrimSpace(t[4:]), i + 1})
+		var body string
+		switch {
+		case strings.HasPrefix(t, "//@"):
+			body = t[3:]
+		case strings.HasPrefix(t, "// @"): // gofmt rewrites //@ in doc comments
+			body = t[4:]
+		default:
+			continue
 		}
+		body = strings.ReplaceAll(body, "\t", "    ")
+		indent := len(body) - len(strings.TrimLeft(body, " "))
+		out = append(out, specLine{strings.TrimSpace(body), i + 1, indent})
 	}
 	return out
 }
@@ -740,7 +741,7 @@ func parseSpecText(src, pkg, file string, assumed bool) (*SpecFile, error) {
 			continue
 		}
 		w, rest := firstWord(l.Text)
-		if topKeywords[w] || clauseKeywords[w] {
+		if (topKeywords[w] && l.Indent <= 1) || (clauseKeywords[w] && l.Indent >= 2) {
 			stmts = append(stmts, stmt{w, rest, l.Line})
 		} else {
 			if len(stmts) == 0 {
